@@ -223,6 +223,12 @@ def sdict_method(eng, bm, obj, name, args, kwargs, node):
         raise Unsupported("dict.update from symbolic dict")
     if name in ("keys",):
         return eng.dict_keys(obj)
+    if name == "items":
+        from .prelude import DictItems
+        return DictItems(obj)
+    if name == "values":
+        from .prelude import DictValues
+        return DictValues(obj)
     if name == "copy":
         return obj
     raise Unsupported(f"symbolic dict.{name}")
